@@ -128,6 +128,11 @@ def gen(ctx):
             for r in range(0, 3):
                 for ns in itertools.permutations(names, r):
                     cases.append(Partial(d, n, [(x, 5 + j) for j, x in enumerate(ns)]))
+                    # the same binding with each parameter's OWN default value as the bound value
+                    # (the identical object): what matters is that it is passed by keyword
+                    dfl = {p[0]: p[2] for p in ps if p[2]}
+                    if any(x in dfl for x in ns):
+                        cases.append(Partial(d, n, [(x, dfl.get(x, 5 + j)) for j, x in enumerate(ns)]))
     return sigs, cases
 
 
@@ -143,6 +148,12 @@ def w_dflt(tag, *args, func=other_default, **kwargs):
     return func(*args, **kwargs)
 def w_dflt_pos(tag, func=other_default, *args, **kwargs):
     return func(*args, **kwargs)
+class Plain(object):
+    def run(self, wrapped, *args, **kwargs):
+        return wrapped(*args, **kwargs)
+    def run2(self, tag, wrapped, *args, **kwargs):
+        return wrapped(*args, **kwargs)
+plain_inst = Plain()
 '''
 
 
@@ -178,6 +189,20 @@ def discovery_checks(ctx, rep, sigs):
                               {'kind': 'discover', 'sig': d})
             if got['deps'].get(register_fn(p)) != 0 and 0 not in [v for k, v in sigtools.signature(p).sources['+depths'].items() if k is p]:
                 rep.violation('C19:discover-depth', 'partial object does not have depth 0 in %s' % (got['deps'],), {'kind': 'discover', 'sig': d})
+            # the partial of a BOUND METHOD: the instance comes first, then the partial's positionals
+            for label, pm in (('partial(inst.run, inner)', functools.partial(mod.plain_inst.run, inner)),
+                              ("partial(inst.run2, 't', inner)", functools.partial(mod.plain_inst.run2, 't', inner)),
+                              ('partial(Plain.run, inst, inner)', functools.partial(mod.Plain.run, mod.plain_inst, inner))):
+                n += 1
+                try:
+                    gotm = describe_sig(sigtools.signature(pm))
+                except Exception as e:  # noqa: BLE001
+                    rep.violation('C19:discover-method', 'sigtools.signature(%s) raised %s for inner%s' % (label, classify_exc(e), show_sig(d)),
+                                  {'kind': 'discover', 'sig': d})
+                    continue
+                if shape_of(gotm) != shape_of(inner_sig):
+                    rep.violation('C19:discover-method', '%s with inner%s: discovered %s, expected the parameters of inner' % (label, show_sig(d), show_sig(gotm)),
+                                  {'kind': 'discover', 'sig': d})
             # keyword binding does not resolve the callee: plain partial signature
             p2 = functools.partial(mod.w_pos, callee=inner)
             n += 1
